@@ -92,7 +92,25 @@ def param_flow(ctx, rule="C16.param-flow"):
     ctx.floor(rule, 25)
 
 
+def sibling_counts(ctx, rule="C16.sibling"):
+    ctx.explain(f"{rule}: the Gaussian and the bosonic parity_expectation normalise with (hbar/2) ** (number of REQUESTED "
+                "modes): the exponent is len(<modes parameter>) in both siblings (the data was reduced to those modes).")
+    for cn in ("BaseGaussianState", "BaseBosonicState"):
+        f = ctx.tree.func(ST, f"{cn}.parity_expectation")
+        mp = f.pos_params[1]
+        pows = [n for n in walk_no_nested(f.node) if isinstance(n, ast.BinOp) and isinstance(n.op, ast.Pow) and
+                "hbar" in ast.unparse(n.left)]
+        ctx.require(pows, f"{cn}.parity_expectation has no (hbar/2) ** n factor")
+        for pw in pows:
+            e = ast.unparse(pw.right).replace(" ", "")
+            ok = e == f"len({mp})"
+            ctx.ob(rule, f.site, ok, "" if ok else f"exponent `{e}` is not the number of requested modes len({mp}): wrong for "
+                   "every hbar != 2 as soon as a strict subset of the modes is asked for", role="exponent", line=pw.lineno)
+    ctx.floor(rule, 2)
+
+
 def rules(ctx):
+    sibling_counts(ctx)
     param_flow(ctx)
     A.alias_mutation(ctx, "C16.alias", ST, ("BaseGaussianState", "BaseBosonicState", "BaseFockState"))
     ctx.floor("C16.alias", 6)
